@@ -410,7 +410,21 @@ func genSynWorld(e *vh.Env, n int, useLoc bool) *world {
 		}
 	}
 	locs := map[string]string{}
+	// CIDs of one block under one codec (CIDv0 / CIDv1 dag-pb) are the same node to every
+	// fetcher; the same multihash under another codec is free to differ
+	sameNode := map[string]*mnode{}
 	for _, c := range cids {
+		class := variant(c)
+		if class == 0 {
+			class = 1
+		}
+		nodeKey := fmt.Sprintf("%d|%s", class, string(c.Hash()))
+		if twin, ok := sameNode[nodeKey]; ok {
+			m := &mnode{c: c, codec: twin.codec, ufs: twin.ufs, ident: twin.ident, loc: twin.loc, links: twin.links, open: twin.open}
+			w.add(m)
+			w.synEnt[c.KeyString()] = entityOf(m.codec, m.ufs)
+			continue
+		}
 		codecs := []string{"CPb", "CPb", "CPb", "CRaw", "CCbor"}
 		codec := codecs[r.Intn(len(codecs))]
 		ufs := ""
@@ -437,6 +451,7 @@ func genSynWorld(e *vh.Env, n int, useLoc bool) *world {
 		}
 		m := &mnode{c: c, codec: codec, ufs: ufs, ident: c.Prefix().MhType == mh.IDENTITY, loc: loc, links: links, open: r.Intn(9) != 0}
 		w.add(m)
+		sameNode[nodeKey] = m
 		w.synEnt[c.KeyString()] = entityOf(codec, ufs)
 	}
 	return w
@@ -850,7 +865,7 @@ func bloomBig(t *testing.T, e *vh.Env, st *vh.Stats, growths int) {
 		if v0 {
 			return cid.NewCidV0(h)
 		}
-		return cid.NewCidV1(cid.Raw, h)
+		return cid.NewCidV1(cid.DagProtobuf, h)
 	}
 	visits, fresh := uint64(0), uint64(0)
 	bad := 0
